@@ -353,6 +353,22 @@ def check(ctx, rep):
     graph = {}
     for cr, b in bodies:
         graph[b.path] = set(t_.get('resolved') for _, t_ in b.calls() if t_.get('resolved_local') and t_.get('resolved'))
+    # formatting is a call too: `write!(f, "{:?}", x)` runs <X as Debug>::fmt (through a function pointer stored by
+    # fmt::rt::Argument::new_debug::<X>) - `{:?}` of `self` inside its own Debug impl never ends
+    fmt_impls = {}
+    for cr, b in bodies:
+        if b.impl_trait in ('core::fmt::Debug', 'core::fmt::Display') and b.impl_self and b.name == 'fmt':
+            fmt_impls[(b.impl_trait, type_head(b.impl_self))] = b.path
+    for cr, b in bodies:
+        for _, t_ in b.calls():
+            cf_ = t_.get('callee_full', '')
+            for ctor_, tr_ in (('Argument::<\'_>::new_debug', 'core::fmt::Debug'), ('Argument::<\'_>::new_display', 'core::fmt::Display'),
+                               ('Argument::new_debug', 'core::fmt::Debug'), ('Argument::new_display', 'core::fmt::Display')):
+                if ctor_ in cf_ and cf_.startswith('core::fmt::rt::'):
+                    for a_ in t_.get('callee_args', []):
+                        h_ = type_head(a_.lstrip('&').replace('mut ', '').strip())
+                        if (tr_, h_) in fmt_impls:
+                            graph[b.path].add(fmt_impls[(tr_, h_)])
     for cr, b in bodies:
         # a closure literal may be run by whoever it is handed to: count it as called by the body that creates it
         if b.def_kind == 'Closure' and '::{closure' in b.path:
